@@ -62,6 +62,13 @@ func buildCases(tier string, u *universe) (cs []caseDef) {
 	for _, en := range engineNames {
 		cs = append(cs, caseDef{Part: 3, Engine: en})
 	}
+	for a := range p5Alphabet() {
+		d := 3
+		if tier == "thorough" {
+			d = 4
+		}
+		cs = append(cs, caseDef{Part: 5, Prefix: []int{a}, Depth: d})
+	}
 	na := len(p4Alphabet())
 	for i := range p4ConfigsQuick {
 		c := p4ConfigsQuick[i]
@@ -125,6 +132,7 @@ type childState struct {
 	p1        *p1Env
 	p2        *p2Env
 	p4        *p4Env
+	p5        *p5Env
 	ops       map[string][]opDef
 	confirmed map[string]bool
 }
@@ -186,6 +194,57 @@ func (cs *childState) runCase(cd caseDef) caseResult {
 			b, _ := json.Marshal(v)
 			res.Viols = append(res.Viols, b)
 		}
+	case 5:
+		if cs.p5 == nil {
+			cs.p5 = newP5Env()
+		}
+		alpha := p5Alphabet()
+		st := newP2Stats()
+		word := make([]int, cd.Depth)
+		copy(word, cd.Prefix)
+		var rec func(pos int)
+		rec = func(pos int) {
+			if pos == cd.Depth {
+				for _, v := range cs.p5.runWord5(alpha, word, st, nil) {
+					key := "5|" + v.Engine + "|" + v.Sig
+					if !cs.confirmed[key] {
+						fresh := newP5Env()
+						again := fresh.runWord5(alpha, word, newP2Stats(), nil)
+						fresh.close()
+						found := false
+						for _, a := range again {
+							if a.Sig == v.Sig && a.Engine == v.Engine {
+								found = true
+							}
+						}
+						if !found {
+							res.Flaky = append(res.Flaky, fmt.Sprintf("part5 %s: %s not reproduced in a fresh runtime", v.Sig, v.What))
+							continue
+						}
+						cs.confirmed[key] = true
+					}
+					b, _ := json.Marshal(v)
+					res.Viols = append(res.Viols, b)
+				}
+				return
+			}
+			for k := range alpha {
+				word[pos] = k
+				rec(pos + 1)
+			}
+		}
+		rec(len(cd.Prefix))
+		res.Evals = st.Words * int64(len(engineNames))
+		res.Steps, res.NA, res.Reads, res.EngCmp = st.Steps, st.NA, st.Reads, st.EngineCompares
+		for k, v := range st.Outcomes {
+			res.Outcomes[k] = v
+		}
+		res.States, res.Trans = setKeys(st.States), setKeys(st.Trans)
+		names := []string{}
+		for _, k := range word {
+			names = append(names, alpha[k].String())
+		}
+		res.Sample = map[string]any{"part": 5, "last_word_of_case": names}
 	case 4:
 		if cs.p4 == nil {
 			cs.p4 = newP4Env()
@@ -372,6 +431,30 @@ func doReplay(file string) {
 			fmt.Printf("  STILL FAILS: %s: %s\n", v.Sig, v.What)
 			failed = true
 		}
+	case 5:
+		var r p5Viol
+		json.Unmarshal(doc.Replay, &r)
+		alpha := p5Alphabet()
+		var word []int
+		for _, n := range r.Word {
+			found := false
+			for i := range alpha {
+				if alpha[i].String() == n {
+					word = append(word, i)
+					found = true
+				}
+			}
+			if !found {
+				fw.Fatalf("replay: unknown step %q", n)
+			}
+		}
+		e := newP5Env()
+		vs := e.runWord5(alpha, word, newP2Stats(), func(s string) { fmt.Println(s) })
+		e.close()
+		for _, v := range vs {
+			fmt.Printf("  STILL FAILS: %s: %s\n", v.Sig, v.What)
+			failed = true
+		}
 	case 4:
 		var r p4Viol
 		json.Unmarshal(doc.Replay, &r)
@@ -468,7 +551,7 @@ func main() {
 	outcomes := fw.NewCounter()
 	samples := fw.NewSampler(16)
 	states, trans, pairs := map[uint64]struct{}{}, map[uint64]struct{}{}, map[uint64]struct{}{}
-	var p1Evals, p2Evals, p4Evals, p4Steps, steps, na, reads, engcmp, crashes int64
+	var p1Evals, p2Evals, p4Evals, p4Steps, p5Evals, p5Steps, steps, na, reads, engcmp, crashes int64
 	var flaky []string
 	stopped := false
 	var retry []int
@@ -483,6 +566,9 @@ func main() {
 		case 4:
 			p4Evals += r.Evals
 			p4Steps += r.Steps
+		case 5:
+			p5Evals += r.Evals
+			p5Steps += r.Steps
 		default:
 			p1Evals += r.Evals
 		}
@@ -544,6 +630,11 @@ func main() {
 					ops := buildOps(*cd.Cfg)
 					desc = fmt.Sprintf("words of %s starting with %s %s", cd.Cfg, ops[cd.Prefix[0]].Name, ops[cd.Prefix[1]].Name)
 					sig = "crash:p2:" + ops[cd.Prefix[0]].Name + ":" + ops[cd.Prefix[1]].Name
+				}
+				if cd.Part == 5 {
+					st := p5Alphabet()[cd.Prefix[0]]
+					desc = fmt.Sprintf("part 5 words starting with %s", st)
+					sig = "crash:p5:" + st.Kind
 				}
 				if cd.Part == 4 {
 					st := p4Alphabet()[cd.Prefix[0]]
@@ -608,9 +699,20 @@ func main() {
 		}
 		bounds["part4"] = map[string]any{"alphabet": len(p4Alphabet()), "operations": strings.Join(p4OpNames, " "), "paths": strings.Join(p4Paths, " "), "depth": d, "configs": cfgs}
 	}
+	{
+		var names []string
+		for _, st := range p5Alphabet() {
+			names = append(names, st.String())
+		}
+		d := 3
+		if run.Thorough() {
+			d = 4
+		}
+		bounds["part5"] = map[string]any{"alphabet": len(names), "depth": d, "ops": strings.Join(names, " "), "instances": "E5 + three instances of one compiled module S (S1, S2, anonymous)"}
+	}
 	om := outcomes.Map()
 	run.Finish(fw.Coverage{
-		Evaluations:     p1Evals + p2Evals + p4Evals,
+		Evaluations:     p1Evals + p2Evals + p4Evals + p5Evals,
 		DistinctNontriv: int64(len(pairs)) + int64(len(trans)),
 		States:          int64(len(states)), Transitions: steps, TracesValidated: steps,
 		Rule: "part 1: distinct (current external type of the export, declared import type) pairs, each instantiated on both engines; " +
@@ -619,8 +721,8 @@ func main() {
 		Samples: samples.List(), Exhaustive: true, Outcomes: om, Bounds: bounds,
 		Extra: map[string]any{
 			"part1_instantiations": p1Evals, "part1_distinct_type_pairs": len(pairs),
-			"part2_word_executions": p2Evals, "part4_word_executions": p4Evals, "part4_steps": p4Steps, "parts2and4_distinct_state_op_pairs": len(trans), "parts2and4_not_applicable_steps": na,
-			"parts2and4_reads_compared_with_model": reads, "parts2and4_engine_lockstep_comparisons": engcmp, "child_crashes": crashes, "watchdog_reruns": len(retry),
+			"part2_word_executions": p2Evals, "part4_word_executions": p4Evals, "part4_steps": p4Steps, "part5_word_executions": p5Evals, "part5_steps": p5Steps, "parts245_distinct_state_op_pairs": len(trans), "parts245_not_applicable_steps": na,
+			"parts245_reads_compared_with_model": reads, "parts245_engine_lockstep_comparisons": engcmp, "child_crashes": crashes, "watchdog_reruns": len(retry),
 			"cases": len(cases), "cases_completed": done,
 		},
 	}, []string{
